@@ -511,8 +511,9 @@ func c09(c *Ctx) {
 
 	// ---- phase 1: one call at a time, exact per-call accounting
 	only2 := c.Mode == "port-queue" // a short batch other checks borrow: only the calls queued on a fixed bind port
+	onlyFlood := c.Mode == "flood"  // another one: only the floods that outlast the deadline
 	rounds := c.N(2, 8)
-	if only2 {
+	if only2 || onlyFlood {
 		rounds = 0
 	}
 	for round := 0; round < rounds; round++ {
@@ -613,7 +614,38 @@ func c09(c *Ctx) {
 	}
 
 	// ---- phase 2: calls queued on one fixed bind port are served in turn
-	{
+	if !onlyFlood {
+		// a call that cannot even open its socket (somebody else holds the fixed port) fails - and leaves the port queue usable: the
+		// calls after it, on this and on other clients with a fixed bind port, are served as usual
+		for k := 0; k < c.N(3, 10); k++ {
+			port := freePort(bindIP)
+			if port == 0 {
+				continue
+			}
+			squat, serr := net.ListenUDP("udp4", &net.UDPAddr{IP: net.ParseIP(bindIP), Port: port})
+			if serr != nil {
+				continue
+			}
+			blocked := []behaviour{{"silence", "broadcast", "error", 0, true}, {"discovery", "broadcast", "error", 0, true}, {"silence", "udp", "error", 0, true}}[k%3]
+			first := e.run(blocked, next(), fmt.Sprintf("%s:%d", bindIP, port))
+			squat.Close()
+			caseNo++
+			c.Res.Eval(1)
+			c.Res.Count("port-queue:calls-that-could-not-bind", 1)
+			if first.hung {
+				c.Res.Violate("C09:port-queue:hang-on-bind-failure", fmt.Sprintf("%s over %s on a fixed bind port that somebody else holds did not return", blocked.name, blocked.path), map[string]any{"err": first.err}, caseNo)
+				return
+			}
+			after := e.run(behaviour{"prompt", []string{"udp", "broadcast"}[k%2], "success", 0, false}, next(), fmt.Sprintf("%s:%d", bindIP, freePort(bindIP)))
+			after.fixed = true
+			caseNo++
+			if after.hung {
+				c.Res.Eval(1)
+				c.Res.Violate("C09:port-queue:hang-after-bind-failure", fmt.Sprintf("after a %s call failed to open its socket on a fixed bind port (%q), the next call from a fixed bind port never returned: the port queue was left locked", blocked.path, first.err), map[string]any{"first_err": first.err}, caseNo)
+				return
+			}
+			e.judge(after, caseNo, "after-bind-failure", 0)
+		}
 		rounds := c.N(3, 10)
 		if only2 {
 			rounds = c.N(5, 20)
@@ -707,7 +739,7 @@ func c09(c *Ctx) {
 
 	// ---- phase 2b: two TCP calls in a row from one fixed bind port (to two different controllers: the kernel refuses to reuse a
 	// 4-tuple that is in TIME_WAIT, whatever the library does): the second must not be refused its own bind port
-	if !only2 {
+	if !only2 && !onlyFlood {
 		for round := 0; round < c.N(3, 12); round++ {
 			port := freePort(bindIP)
 			if port == 0 {
@@ -736,7 +768,7 @@ func c09(c *Ctx) {
 	}
 
 	// ---- phase 3: leak batches - parallel random sequences, listener cycles in between
-	if !only2 {
+	if !only2 && !onlyFlood {
 		total := c.N(1200, 20000)
 		workers := 16
 		var done atomic.Int64
